@@ -7,6 +7,7 @@ import (
 	"strconv"
 	"strings"
 
+	"istio.io/istio/pkg/security"
 	"verifharness/internal/wire"
 )
 
@@ -70,12 +71,35 @@ func genSub(r *wire.Rng) string {
 	return wire.Enc(wire.Pick(r, oidcSubs))
 }
 
-func genAuthnLine(r *wire.Rng) []string {
-	switch r.Intn(4) {
+func genTransport(r *wire.Rng) string {
+	if r.Chance(1, 4) {
+		return "http"
+	}
+	return "grpc"
+}
+
+func genHdrForm(r *wire.Rng) string {
+	switch r.Intn(16) {
+	case 0:
+		return "none"
+	case 1:
+		return "basic"
+	case 2, 3:
+		return "istio"
+	case 4:
+		return "two"
+	}
+	return "bearer"
+}
+
+// genAuthSpec returns the tokens of an `authn` line after the word "authn" for the given kind
+// (0 oidc, 1 kube, 2 xfcc, 3 cert) and transport.
+func genAuthSpec(r *wire.Rng, kind int, tr string, asciiOnly bool) []string {
+	switch kind {
 	case 0:
 		tok := "ok"
 		if r.Chance(1, 6) {
-			tok = wire.Pick(r, []string{"nohdr", "garbage", "expired", "wrongiss", "otherkey"})
+			tok = wire.Pick(r, []string{"garbage", "expired", "wrongiss", "otherkey"})
 		}
 		audKind := "list"
 		if r.Chance(1, 10) {
@@ -90,7 +114,7 @@ func genAuthnLine(r *wire.Rng) []string {
 		if len(expected) > 0 && r.Chance(3, 5) {
 			aud = append(aud, wire.Pick(r, expected))
 		}
-		return []string{"authn", "oidc", wire.Enc(wire.Pick(r, authnTDs)), wire.EncList(expected), tok, sub, audKind, wire.EncList(aud)}
+		return []string{"oidc", tr, wire.Enc(wire.Pick(r, authnTDs)), wire.EncList(expected), genHdrForm(r), tok, sub, audKind, wire.EncList(aud)}
 	case 1:
 		rev := reviewSpec{errMsg: "", authenticated: r.Chance(9, 10), username: wire.Pick(r, kubeUsers)}
 		if r.Chance(3, 5) {
@@ -117,16 +141,15 @@ func genAuthnLine(r *wire.Rng) []string {
 		primary := wire.Pick(r, []string{"Kubernetes", "c1", ""})
 		aliases := wire.Pick(r, [][]string{{}, {"alias=c1"}, {"alias=remote1"}, {"x=y"}, {"alias=Kubernetes", "other=remote2"}})
 		remotes := wire.Pick(r, []string{"nil", "-", "remote1", "remote1,remote2"})
-		hdrVals := wire.Pick(r, [][]string{nil, nil, {primary}, {primary}, {"alias"}, {"remote1"}, {"remote1"}, {"remote2"}, {"unknown"}, {"a", "b"}, {""}, {"other"}})
+		hdrVals := wire.Pick(r, [][]string{nil, nil, {primary}, {primary}, {"alias"}, {"remote1"}, {"remote1"}, {"remote2"}, {"unknown"}, {"a", "b"}, {""}, {"other"}, {"remote1", "x"}})
 		hdr := "-"
 		if hdrVals != nil {
 			hdr = wire.EncList(hdrVals)
 		}
-		tokhdr := "bearer"
-		if r.Chance(1, 8) {
-			tokhdr = wire.Pick(r, []string{"none", "basic"})
-		}
-		return []string{"authn", "kube", wire.Enc(wire.Pick(r, authnTDs)), wire.Enc(primary), wire.EncList(aliases), remotes, hdr, tokhdr, rev.tok()}
+		tokenAud := wire.Pick(r, [][]string{{"istio-ca"}, {"istio-ca"}, {"istio-ca", "other-aud"}, {"custom"}})
+		token := wire.Pick(r, []string{"tok-1", "eyJhbGciOi.payload.sig", "t t"})
+		return []string{"kube", tr, wire.Enc(wire.Pick(r, authnTDs)), wire.Enc(primary), wire.EncList(aliases), remotes, hdr, genHdrForm(r), wire.Enc(token),
+			wire.EncList(tokenAud), rev.tok()}
 	case 2:
 		peer := wire.Pick(r, xfccPeers)
 		if r.Chance(1, 12) {
@@ -148,11 +171,15 @@ func genAuthnLine(r *wire.Rng) []string {
 			}
 			parsed = parsedXFCC(h[0])
 		}
-		return []string{"authn", "xfcc", wire.EncList(wire.Pick(r, xfccCIDRs)), peer, hdrs, parsed}
+		return []string{"xfcc", tr, wire.EncList(wire.Pick(r, xfccCIDRs)), peer, hdrs, parsed}
 	default:
 		kind := "tls"
 		if r.Chance(1, 6) {
 			kind = wire.Pick(r, []string{"nopeer", "noauth", "other"})
+		}
+		entries := sanEntries
+		if !asciiOnly {
+			entries = append(append([]string{}, sanEntries...), "I:c0a80101", "I:ac100a80", "D:héllo.example")
 		}
 		genCert := func() string {
 			switch r.Intn(8) {
@@ -167,7 +194,7 @@ func genAuthnLine(r *wire.Rng) []string {
 			}
 			var es []string
 			for i := 0; i < n; i++ {
-				es = append(es, wire.Pick(r, sanEntries))
+				es = append(es, wire.Pick(r, entries))
 			}
 			return "san:" + wire.EncList(es)
 		}
@@ -194,8 +221,12 @@ func genAuthnLine(r *wire.Rng) []string {
 		if len(chains) == 1 && chains[0] == "" {
 			tok = "~"
 		}
-		return []string{"authn", "cert", kind, tok}
+		return []string{"cert", tr, kind, tok}
 	}
+}
+
+func genAuthnLine(r *wire.Rng) []string {
+	return append([]string{"authn"}, genAuthSpec(r, r.Intn(4), genTransport(r), false)...)
 }
 
 func genAuthn(seed uint64, n int, outp string) {
@@ -224,6 +255,115 @@ func genAuthn(seed uint64, n int, outp string) {
 
 func sanitizeTD(td string) string { return strings.ReplaceAll(td, "@", ".") }
 
+// tokenPresented: a bearer token was presented in the way the transport defines.
+func tokenPresented(tr, form string) bool {
+	switch form {
+	case "bearer":
+		return true
+	case "istio":
+		return tr == "http"
+	case "two":
+		return tr == "grpc"
+	}
+	return false
+}
+
+// credentialClause evaluates the property on one authenticator spec (kind first, as in an `authn` line
+// without the leading word) and the caller the real authenticator returned for it; "" = holds.
+// `via` is the record of the TokenReview the kube authenticator submitted.
+func credentialClause(f []string, caller *security.Caller, via string) string {
+	ids := caller.Identities
+	switch f[0] {
+	case "oidc":
+		sub := wire.Dec(f[6])
+		parts := strings.Split(sub, ":")
+		okTok := tokenPresented(f[1], f[4]) && f[5] == "ok" && f[7] == "list" && f[6] != "absent"
+		inter := false
+		for _, a := range wire.DecList(f[8]) {
+			for _, b := range wire.DecList(f[3]) {
+				if a == b {
+					inter = true
+				}
+			}
+		}
+		if !okTok || !inter {
+			return "oidc-unvalidated-credential"
+		} else if len(parts) < 4 || !strings.HasPrefix(sub, "system:serviceaccount") {
+			return "oidc-malformed-sub-accepted"
+		} else if len(ids) != 1 || ids[0] != "spiffe://"+sanitizeTD(wire.Dec(f[2]))+"/ns/"+parts[2]+"/sa/"+parts[3] {
+			return "oidc-identity-not-from-sub"
+		}
+	case "kube":
+		rev := parseReview(f[10])
+		parts := strings.Split(rev.username, ":")
+		inGroup := false
+		for _, g := range rev.groups {
+			if g == "system:serviceaccounts" {
+				inGroup = true
+			}
+		}
+		if !tokenPresented(f[1], f[7]) || rev.apiErr || rev.errMsg != "" || !rev.authenticated || !inGroup {
+			return "kube-unvalidated-credential"
+		} else if len(parts) != 4 || parts[2] == "" || parts[3] == "" {
+			return "kube-malformed-username-accepted"
+		} else if len(ids) != 1 || ids[0] != "spiffe://"+sanitizeTD(wire.Dec(f[2]))+"/ns/"+parts[2]+"/sa/"+parts[3] ||
+			caller.KubernetesInfo.PodNamespace != parts[2] || caller.KubernetesInfo.PodServiceAccount != parts[3] {
+			return "kube-identity-not-from-review"
+		}
+		// the token must have been reviewed for the configured audiences, and it must be the presented token
+		var aud, tok string
+		for _, w := range strings.Fields(via) {
+			if strings.HasPrefix(w, "aud=") {
+				aud = w[4:]
+			}
+			if strings.HasPrefix(w, "tok=") {
+				tok = w[4:]
+			}
+		}
+		if aud != f[9] {
+			return "kube-review-not-bound-to-audience"
+		}
+		if tok != f[8] {
+			return "kube-review-of-another-token"
+		}
+	case "xfcc":
+		if !peerTrusted(f[3], wire.DecList(f[2])) {
+			return "xfcc-untrusted-peer"
+		}
+		hs := wire.DecList(f[4])
+		if f[4] == "-" || len(hs) == 0 {
+			return "xfcc-no-header"
+		}
+		for _, id := range ids {
+			if id != "" && !strings.Contains(strings.ReplaceAll(hs[0], `\,`, ","), id) {
+				return "xfcc-identity-not-from-header"
+			}
+		}
+	case "cert":
+		chains, err := chainsFromTok(f[3])
+		if f[2] != "tls" || err != nil || len(chains) == 0 || len(chains[0]) == 0 {
+			return "cert-unvalidated-credential"
+		}
+		spec := wire.Dec(strings.Split(wire.DecList(f[3])[0], "|")[0])
+		if !strings.HasPrefix(spec, "san:") {
+			return "cert-no-san"
+		}
+		var want []string
+		for _, e := range wire.DecList(spec[4:]) {
+			if e[0] == 'I' {
+				b, _ := hex.DecodeString(e[2:])
+				want = append(want, string(b))
+			} else {
+				want = append(want, e[2:])
+			}
+		}
+		if strings.Join(want, "\x00") != strings.Join(ids, "\x00") {
+			return "cert-identity-not-from-san"
+		}
+	}
+	return ""
+}
+
 func oracleAuthn(in, outp string) {
 	out := wire.Create(outp)
 	defer out.Close()
@@ -250,7 +390,7 @@ func oracleAuthn(in, outp string) {
 			continue
 		}
 		idx++
-		if f[0] != "authn" || len(f) < 2 {
+		if f[0] != "authn" || len(f) < 3 {
 			continue
 		}
 		res := s.run(f)
@@ -259,7 +399,7 @@ func oracleAuthn(in, outp string) {
 			continue
 		}
 		if res.crash {
-			if f[1] == "xfcc" && !peerIsNetworkAddress(f[3]) {
+			if f[1] == "xfcc" && !peerIsNetworkAddress(f[4]) {
 				continue // not a transport address: outside the property's quantifier (recorded observation)
 			}
 			fail(f[1]+"-errors-not-crashes", f, got)
@@ -268,82 +408,8 @@ func oracleAuthn(in, outp string) {
 		if res.err != nil || res.caller == nil {
 			continue
 		}
-		ids := res.caller.Identities
-		switch f[1] {
-		case "oidc":
-			sub := wire.Dec(f[5])
-			parts := strings.Split(sub, ":")
-			okTok := f[4] == "ok" && f[6] == "list" && f[5] != "absent"
-			inter := false
-			for _, a := range wire.DecList(f[7]) {
-				for _, b := range wire.DecList(f[3]) {
-					if a == b {
-						inter = true
-					}
-				}
-			}
-			if !okTok || !inter {
-				fail("oidc-unvalidated-credential", f, got)
-			} else if len(parts) < 4 || !strings.HasPrefix(sub, "system:serviceaccount") {
-				fail("oidc-malformed-sub-accepted", f, got)
-			} else if len(ids) != 1 || ids[0] != "spiffe://"+sanitizeTD(wire.Dec(f[2]))+"/ns/"+parts[2]+"/sa/"+parts[3] {
-				fail("oidc-identity-not-from-sub", f, got)
-			}
-		case "kube":
-			rev := parseReview(f[8])
-			parts := strings.Split(rev.username, ":")
-			inGroup := false
-			for _, g := range rev.groups {
-				if g == "system:serviceaccounts" {
-					inGroup = true
-				}
-			}
-			if f[7] != "bearer" || rev.apiErr || rev.errMsg != "" || !rev.authenticated || !inGroup {
-				fail("kube-unvalidated-credential", f, got)
-			} else if len(parts) != 4 || parts[2] == "" || parts[3] == "" {
-				fail("kube-malformed-username-accepted", f, got)
-			} else if len(ids) != 1 || ids[0] != "spiffe://"+sanitizeTD(wire.Dec(f[2]))+"/ns/"+parts[2]+"/sa/"+parts[3] ||
-				res.caller.KubernetesInfo.PodNamespace != parts[2] || res.caller.KubernetesInfo.PodServiceAccount != parts[3] {
-				fail("kube-identity-not-from-review", f, got)
-			}
-		case "xfcc":
-			if !peerTrusted(f[3], wire.DecList(f[2])) {
-				fail("xfcc-untrusted-peer", f, got)
-				break
-			}
-			hs := wire.DecList(f[4])
-			if f[4] == "-" || len(hs) == 0 {
-				fail("xfcc-no-header", f, got)
-				break
-			}
-			for _, id := range ids {
-				if id != "" && !strings.Contains(strings.ReplaceAll(hs[0], `\,`, ","), id) {
-					fail("xfcc-identity-not-from-header", f, got)
-				}
-			}
-		case "cert":
-			chains, err := chainsFromTok(f[3])
-			if f[2] != "tls" || err != nil || len(chains) == 0 || len(chains[0]) == 0 {
-				fail("cert-unvalidated-credential", f, got)
-				break
-			}
-			spec := wire.Dec(strings.Split(wire.DecList(f[3])[0], "|")[0])
-			if !strings.HasPrefix(spec, "san:") {
-				fail("cert-no-san", f, got)
-				break
-			}
-			var want []string
-			for _, e := range wire.DecList(spec[4:]) {
-				if e[0] == 'I' {
-					b, _ := hex.DecodeString(e[2:])
-					want = append(want, string(b))
-				} else {
-					want = append(want, e[2:])
-				}
-			}
-			if strings.Join(want, "\x00") != strings.Join(ids, "\x00") {
-				fail("cert-identity-not-from-san", f, got)
-			}
+		if clause := credentialClause(f[1:], res.caller, res.via); clause != "" {
+			fail(clause, f, got)
 		}
 	}
 	flush()
